@@ -17,7 +17,7 @@ from simtz import replsim as rs
 from simtz.runner import rng_for
 
 ID = 'C22'
-QUICK_RUNS = 1800
+QUICK_RUNS = 1200
 SHRINK_EXECS = 150
 QUICK_BUDGET_S = 90
 CHUNK = 25
@@ -371,7 +371,7 @@ class _World:
 
         rs.install_fault_points()
         self.sim = sim = core.Sim()
-        self.node = node = nodesim.SimNode(sim, {})
+        self.node = node = nodesim.SimNode(sim, {'logical_timestamps': True})
         node.bake(2)
         for bm, content in CHAIN_BIG_MAPS.items():
             node.big_maps[bm] = {c15.key_hash('int', k): {'string': v} for k, v in content.items()}
